@@ -558,6 +558,23 @@ class _Arith(Sym):
         c = core.ctx()
         if c is None:
             raise Unsupported("sqrt outside exploration")
+        # radicand fixed by the path condition (e.g. |v|^2 = 1 was assumed): the root is that constant's root
+        ukey = ("sqrt-unique", s.get_id())
+        hit = c.cache.get(ukey)
+        if hit is not None and hit[1].eq(s) and hit[2] == len(c.pc):
+            uv = hit[0]
+        else:
+            try:
+                uv = unique_value(c, s)
+            except core.SolverUnknown:
+                uv = None
+            c.cache[ukey] = (uv, s, len(c.pc))
+        if uv is not None:
+            fr = Fraction(uv)
+            if fr >= 0:
+                r = Fraction(math.isqrt(fr.numerator), math.isqrt(fr.denominator))
+                if r * r == fr:
+                    return SymReal(z3.RealVal(r))
         # one root symbol per polynomial: key on the sum-of-monomials normal form, so that the same radicand built in a
         # different association order (library vs oracle) shares its root and UF congruence can see it
         try:
